@@ -256,6 +256,10 @@ def sdeint_adjoint(sde: nn.Module,
                               f"to each `ts`, and instead interpolates to them). This means that "
                               f"method={repr(method)} may not be perfectly accurate.")
 
+    # A tensor listed twice in `adjoint_params` (e.g. a layer shared by two parameter lists) must only be integrated once:
+    # otherwise every occurrence receives the full gradient and they all accumulate into the same `.grad`.
+    adjoint_params = tuple({id(param): param for param in adjoint_params}.values())
+
     solver_fn = methods.select(method=method, sde_type=sde.sde_type)
     solver = solver_fn(
         sde=sde,
